@@ -980,6 +980,10 @@ class AttrParser(BaseParser):
         except (ValueError, OverflowError) as e:
             # A value that does not fit the element type
             self.raise_error(f"Invalid value in dense literal: {e}")
+        except NotImplementedError:
+            self.raise_error(
+                f"Dense literals of element type {type.element_type} are not supported"
+            )
 
     def _parse_builtin_dense_attr(self) -> DenseIntOrFPElementsAttr:
         return self.parse_dense_int_or_fp_elements_attr(None)
@@ -1068,6 +1072,10 @@ class AttrParser(BaseParser):
         """
         try:
             raw = value.to_bytes(type.compile_time_size, "little")
+        except NotImplementedError:
+            self.raise_error(
+                f"Values of type {type} are not supported", at_position=span
+            )
         except OverflowError:
             self.raise_error(
                 f"Hexadecimal float literal does not fit in {type}", at_position=span
@@ -1511,6 +1519,8 @@ class AttrParser(BaseParser):
                 return FloatAttr(float(value), type)
             except OverflowError:
                 self.raise_error(f"Float value is too large for type {type}")
+            except NotImplementedError:
+                self.raise_error(f"Values of type {type} are not supported")
 
         if isa(type, IntegerType | IndexType):
             if isinstance(value, float):
